@@ -115,6 +115,42 @@ pub fn sanitize(s: &str) -> String {
     out
 }
 
+/// Product of the absolute values of all integers that directly follow a power operator (`^`, `**`) in the input.
+pub fn tower_product(s: &str) -> u64 {
+    let cs: Vec<char> = s.chars().collect();
+    let mut prod: u64 = 1;
+    let mut i = 0;
+    while i < cs.len() {
+        let adv = if cs[i] == '^' {
+            1
+        } else if cs[i] == '*' && cs.get(i + 1) == Some(&'*') {
+            2
+        } else {
+            0
+        };
+        if adv == 0 {
+            i += 1;
+            continue;
+        }
+        i += adv;
+        while i < cs.len() && cs[i].is_whitespace() {
+            i += 1;
+        }
+        if i < cs.len() && (cs[i] == '-' || cs[i] == '+') {
+            i += 1;
+        }
+        let st = i;
+        while i < cs.len() && cs[i].is_ascii_digit() && i - st < 4 {
+            i += 1;
+        }
+        if i > st {
+            let n: u64 = cs[st..i].iter().collect::<String>().parse().unwrap_or(1);
+            prod = prod.saturating_mul(n.max(1));
+        }
+    }
+    prod
+}
+
 pub fn check_str(db: &anything::Db, s: &str) -> CaseReport {
     let r = guarded(s, || -> Result<(usize, usize, usize), (String, String)> {
         let ntok = Lexer::new(s).count();
@@ -161,6 +197,10 @@ pub fn check_str(db: &anything::Db, s: &str) -> CaseReport {
         Ok((ntok, n, reached))
     });
     match r {
+        // known finding (DESIGN 5, #19): unit powers are plain i32 and none of the arithmetic on them is checked,
+        // so a unit power driven towards 2^31 by a tower of `^` overflows in debug-assertion builds.  Keyed on
+        // the input class (product of the exponents behind power operators) and the panic kind, not on a line.
+        Err(p) if p.contains("with overflow") && tower_product(s) >= (1u64 << 24) => CaseReport::fail(s, "unit-power-i32-overflow", json!({"input": s, "panic": p, "product_of_exponents": tower_product(s)})),
         Err(p) => CaseReport::fail(s, format!("panic:{}", panic_site(&p)), json!({"input": s, "panic": p})),
         Ok(Err((sig, why))) => CaseReport::fail(s, sig, json!({"input": s, "why": why})),
         Ok(Ok((ntok, n, reached))) => {
@@ -363,8 +403,30 @@ fn power_tower() -> impl Strategy<Value = String> {
     })
 }
 
+/// Two power towers over units without a scale factor, joined by an operator: the unit powers of the
+/// operands are each representable, their sum, difference or negation may not be.
+fn tower_products() -> impl Strategy<Value = String> {
+    // base units only: with a derived unit the re-derivation loop in Compound::mul walks |power| steps
+    // (seconds for powers near 2^31 — a resource test), and the overflow would be the same root cause
+    const UNITS: [&str; 8] = ["m", "s", "A", "K", "mol", "cd", "B", "kg"];
+    let tower = || {
+        (prop_oneof![Just("1"), Just("-1"), Just("0"), Just("1.0")], any::<u16>(), -99i32..=99, prop::collection::vec(prop_oneof![3 => 2i32..=99, 1 => -99i32..=-2], 2..=6), any::<bool>()).prop_map(|(v, ui, p0, levels, parens)| {
+            let u = UNITS[pick_idx(ui, UNITS.len())];
+            let mut e = if parens { format!("({} {}^{})", v, u, p0) } else { format!("{}{} ", v, u) };
+            for p in &levels {
+                e = format!("{}^{}", e.trim_end(), p);
+                if !parens {
+                    e.push(' ');
+                }
+            }
+            e.trim_end().to_string()
+        })
+    };
+    (tower(), prop_oneof![Just(" * "), Just(" / "), Just(" + "), Just(" - ")], tower(), any::<bool>()).prop_map(|(a, op, b, same)| if same { format!("{}{}{}", a, op, a) } else { format!("{}{}{}", a, op, b) })
+}
+
 pub fn run_check(ctx: &Ctx, child: bool) {
-    ctx.set_rule("inputs: arbitrary Unicode strings, printable-ASCII noise, token soups of up to 40 tokens (numbers, vocabulary words, operators, parentheses, braces, commas, %, to, function names, fact words, multi-byte and unknown characters, Unicode blanks) well-formed expressions with one or two token mutations, products/quotients/sums/casts of quantities at the special points of the unit system (absolute zero on every scale, zero, tiny and huge magnitudes), and towers of up to seven two-digit powers over a quantity of value 0, 1 or -1 (the unit's power may leave i32; the value stays tiny); every input is passed through a sanitiser that enforces the stated bounds (power operator followed by an integer of <= 2 digits with product <= 1000 — an operator with nothing that could be a value behind it is left dangling as written — <= 2 digits after a comma, literal exponents of <= 3 digits); oracle: no panic, parse succeeds, the result sequence ends, every value displays, every error has a message and a range inside the input on char boundaries; run in a debug-assertion build and in a release build, plus a sample through the real binary; non-trivial = >= 3 tokens and at least one result that is not a plain syntax error; distinct by input text (per profile)");
+    ctx.set_rule("inputs: arbitrary Unicode strings, printable-ASCII noise, token soups of up to 40 tokens (numbers, vocabulary words, operators, parentheses, braces, commas, %, to, function names, fact words, multi-byte and unknown characters, Unicode blanks) well-formed expressions with one or two token mutations, products/quotients/sums/casts of quantities at the special points of the unit system (absolute zero on every scale, zero, tiny and huge magnitudes), towers of up to seven two-digit powers over a quantity of value 0, 1 or -1 (the unit's power may leave i32; the value stays tiny) and sums/products/quotients of two such towers; every input is passed through a sanitiser that enforces the stated bounds (power operator followed by an integer of <= 2 digits with product <= 1000 — an operator with nothing that could be a value behind it is left dangling as written — <= 2 digits after a comma, literal exponents of <= 3 digits); oracle: no panic, parse succeeds, the result sequence ends, every value displays, every error has a message and a range inside the input on char boundaries; run in a debug-assertion build and in a release build, plus a sample through the real binary; non-trivial = >= 3 tokens and at least one result that is not a plain syntax error; distinct by input text (per profile)");
     ctx.assume("a watchdog (30 s per case) turns a hang into exit 2 (inconclusive), never a violation");
     let corpus: Vec<(String, StrCase)> = load_corpus("C11");
     let cases: Vec<StrCase> = corpus.into_iter().map(|c| c.1).collect();
@@ -374,6 +436,7 @@ pub fn run_check(ctx: &Ctx, child: bool) {
     ctx.run_gen("mutated-well-formed", || mutated().prop_map(|input| StrCase { input }), n / 2, |c| check_str(shared_db(), &c.input), |c| to_json(c));
     ctx.run_gen("special-quantities", || special_quantities().prop_map(|input| StrCase { input }), n / 8, |c| check_str(shared_db(), &c.input), |c| to_json(c));
     ctx.run_gen("unit-power-towers", || power_tower().prop_map(|input| StrCase { input }), n / 8, |c| check_str(shared_db(), &c.input), |c| to_json(c));
+    ctx.run_gen("unit-power-tower-products", || tower_products().prop_map(|input| StrCase { input }), n / 8, |c| check_str(shared_db(), &c.input), |c| to_json(c));
     ctx.run_gen("ascii-noise", || "[ -~]{0,40}".prop_map(|s| StrCase { input: sanitize(&s) }), n / 4, |c| check_str(shared_db(), &c.input), |c| to_json(c));
     ctx.run_gen("unicode", || "\\PC{0,30}".prop_map(|s| StrCase { input: sanitize(&s) }), n / 8, |c| check_str(shared_db(), &c.input), |c| to_json(c));
     ctx.run_gen("any-string", || any::<String>().prop_map(|s| StrCase { input: sanitize(&s) }), n / 8, |c| check_str(shared_db(), &c.input), |c| to_json(c));
